@@ -487,7 +487,6 @@ impl<M: Manager, W: From<Object<M>>> Pool<M, W> {
         if self.inner.semaphore.is_closed() {
             return;
         }
-        verif_point!("resize.lock");
         let mut slots = self.inner.slots.lock().unwrap();
         let old_max_size = slots.max_size;
         slots.max_size = max_size;
@@ -584,7 +583,6 @@ impl<M: Manager, W: From<Object<M>>> Pool<M, W> {
     /// This operation resizes the pool to 0.
     pub fn close(&self) {
         self.resize(0);
-        verif_point!("close.sem");
         self.inner.semaphore.close();
     }
 
